@@ -27,6 +27,7 @@ type Server struct {
 	loader                *include.Loader
 	resolved              sync.Map
 	cliClient             *cli.Client
+	cliMu                 sync.RWMutex
 	rootURI               string
 	workspace             *workspace.Workspace
 	settings              serverSettings
@@ -47,8 +48,19 @@ func NewServer() *Server {
 	return srv
 }
 
+// reinitCLI replaces the CLI client. Configuration refreshes run in their own
+// goroutines and may overlap, so the field is guarded.
 func (s *Server) reinitCLI(cfg cliSettings) {
-	s.cliClient = cli.NewClient(cfg.Path, cfg.Timeout)
+	client := cli.NewClient(cfg.Path, cfg.Timeout)
+	s.cliMu.Lock()
+	s.cliClient = client
+	s.cliMu.Unlock()
+}
+
+func (s *Server) getCLIClient() *cli.Client {
+	s.cliMu.RLock()
+	defer s.cliMu.RUnlock()
+	return s.cliClient
 }
 
 func (s *Server) SetClient(client protocol.Client) {
